@@ -356,6 +356,15 @@ def cxx_case(chk, i):
         pool = poly_bases * 6 + used_as_base * 3 + used_by_value * 2 + classes
         chosen = sorted(set(x.name for x in r.sample(pool, min(len(pool), r.randint(1, 2)))))
         flags = []
+        # (only templates that no other template instantiates with its own parameters: partially dependent instantiations are the
+        # recorded C01 finding template-mixed-dependent-instantiation)
+        tpls = [n for n in g.classes() if n.kind == "template"
+                and not any(o.kind == "template" and o is not n and any((n.name + "<") in m_ for m_ in o.members) for o in g.classes())]
+        if tpls and r.random() < 0.4:
+            # opaque template: its instantiations become inline blobs of exactly the instantiation's size and alignment
+            tp = r.choice(tpls)
+            chosen = [c for c in chosen if r.random() < 0.5]
+            flags += ["--opaque-type", tp.name + ".*"]
         for c in chosen:
             flags += ["--opaque-type", c]
         cname = "%s-s%d" % (name, s_)
@@ -366,7 +375,7 @@ def cxx_case(chk, i):
         files = {"header.hpp": text, "flags.txt": " ".join(flags), "bindings.rs": open(b1).read(), "bindings_unselected.rs": open(b0).read(), "rustc.txt": r1[1][-3000:]}
         f1 = failing_assertions(r1[1])
         new = sorted(f1 - f0)
-        obs = {"cxx_selections": 1, "cxx_opaque_classes": len(chosen), "cxx_assertions_in_unselected_run": len(set(re.findall(r'\["(?:Size|Alignment) of [^"]+"\]', open(b0).read()))),
+        obs = {"cxx_selections": 1, "cxx_opaque_classes": len(chosen), "cxx_opaque_templates": int(any(f.endswith(".*") for f in flags)), "cxx_assertions_in_unselected_run": len(set(re.findall(r'\["(?:Size|Alignment) of [^"]+"\]', open(b0).read()))),
                "cxx_selection_hits_base": int(any(c in [x.name for x in used_as_base] for c in chosen)),
                "cxx_selection_hits_virtual_class": int(any(g.by_name(c).attrs.get("virtual") for c in chosen))}
         problems = []
